@@ -231,6 +231,45 @@ def index_guards(fn):
                 yield cmp_, S, [(m, c - base[1] + b0) for m, b0 in subs]
 
 
+def lower_guards(fn):
+    """yield (compare node, slack, [(subscript node, offset)]) for lower-bound tests `base + a0 > c` / `>= c` (c an integer)
+    that guard - in the same `and` chain or as the test of a conditional expression - subscripts X[base + b] with b < 0.
+    slack = (smallest base admitted) + (most negative b): 0 = exactly the non-negative indices, > 0 = a valid position
+    is never looked at, < 0 = a negative index (Python wraps around to the end) can be read"""
+    for n in ast.walk(fn):
+        scopes = []
+        if isinstance(n, ast.BoolOp) and isinstance(n.op, ast.And):
+            for i, v in enumerate(n.values):
+                scopes.append((v, n.values[i + 1:]))
+        if isinstance(n, ast.IfExp):
+            tests = n.test.values if isinstance(n.test, ast.BoolOp) and isinstance(n.test.op, ast.And) else [n.test]
+            for v in tests:
+                scopes.append((v, [n.body]))
+        for cmp_, rest in scopes:
+            if not (isinstance(cmp_, ast.Compare) and len(cmp_.ops) == 1):
+                continue
+            op, l, r = cmp_.ops[0], cmp_.left, cmp_.comparators[0]
+            if isinstance(op, (ast.Lt, ast.LtE)):       # c < base  ==  base > c
+                op = ast.Gt() if isinstance(op, ast.Lt) else ast.GtE()
+                l, r = r, l
+            if not isinstance(op, (ast.Gt, ast.GtE)):
+                continue
+            c = _split_const(r)
+            base = _split_const(l)
+            if c is None or c[0] != '' or base is None or base[0] == '':
+                continue
+            least = c[1] - base[1] + (1 if isinstance(op, ast.Gt) else 0)
+            subs = []
+            for sc in rest:
+                for m in ast.walk(sc):
+                    if isinstance(m, ast.Subscript) and not isinstance(m.slice, ast.Slice):
+                        b = _split_const(m.slice)
+                        if b and b[0] == base[0] and b[1] < 0:
+                            subs.append((m, b[1]))
+            if subs:
+                yield cmp_, least + min(b for _, b in subs), subs
+
+
 def rule_index_guards(chk, idx, rid, mod_prefix, floor=1, exempt=None):
     """a bound test `i < len(S) (+c)` that guards an access S[i (+d)] admits exactly the valid positions: looser lets an
     IndexError happen (swallowed by the models - entities vanish), tighter silently skips the last position"""
@@ -259,6 +298,26 @@ def rule_index_guards(chk, idx, rid, mod_prefix, floor=1, exempt=None):
                             'the last valid position is never looked at, so what stands there (e.g. a closing bracket at the '
                             'end of the input) is silently ignored' if slack < 0 else
                             'an index one past the end can be read; the IndexError is swallowed by the model and entities vanish'),
+                        cmp_.lineno)
+        seen_lo = set()
+        for cmp_, slack, subs in lower_guards(fn):
+            key = ast.unparse(cmp_)
+            worst = min(subs, key=lambda x: x[1])
+            construct = '%s: guard `%s` for %s' % (q, key, ast.unparse(worst[0]))
+            if construct in seen_lo:
+                continue
+            seen_lo.add(construct)
+            if slack == 0:
+                chk.ok(rid, mod.path, construct, 'tight (lower bound)', cmp_.lineno)
+            elif exempt and (q, key) in exempt:
+                chk.exempt(rid, mod.path, construct, exempt[(q, key)], cmp_.lineno)
+            else:
+                chk.bad(rid, mod.path, construct, 'slack %+d (lower bound)' % slack,
+                        '%s: the lower-bound test `%s` does not match the access %s it guards: %s' % (
+                            q, key, ast.unparse(worst[0]),
+                            'the first position it could look at is skipped (the character right after the start of the text '
+                            'is never examined)' if slack > 0 else
+                            'a negative index can be read, which in Python silently wraps around to the end of the sequence'),
                         cmp_.lineno)
     ctl = ast.parse('def f(source, m):\n    if m.end < len(source) - 1 and source[m.end] == ")":\n        return True\n').body[0]
     chk.control(rid, any(slack_of(subs) != 0 for _, _, subs in index_guards(ctl)))
